@@ -134,8 +134,13 @@ def _is_division_call(n, module) -> bool:
 
 def _debt_weight(fn, module, cls) -> Fraction:
     found = []
+    # what an `except OverflowError:` handler does (saturation beyond the float range) is not the debt term
+    in_handler = {id(x) for t in ast.walk(fn) if isinstance(t, ast.Try) for h in t.handlers
+                  if isinstance(h.type, ast.Name) and h.type.id == "OverflowError" for st in h.body for x in ast.walk(st)}
     for n in ast.walk(fn):
         val = None
+        if id(n) in in_handler:
+            continue
         if isinstance(n, ast.AugAssign) and isinstance(n.op, ast.Sub) and isinstance(n.target, ast.Name) \
                 and n.target.id == "ratio":
             val = n.value
@@ -243,6 +248,13 @@ def _upd_guards(fn, module=None):
                 scan_expr(st.test, guards, False)
                 visit(st.body, guards + [(st.test, True)])
                 visit(st.orelse, guards + [(st.test, False)])
+            elif isinstance(st, ast.Try) and not st.finalbody and not st.orelse and st.handlers and all(
+                    isinstance(h.type, ast.Name) and h.type.id == "OverflowError" for h in st.handlers):
+                # `try: <divisions> except OverflowError: <saturate>`: the float range handled in place; the zero-denominator
+                # guards are looked for as everywhere else (ZeroDivisionError is not caught)
+                visit(st.body, guards)
+                for h in st.handlers:
+                    visit(h.body, guards)
             elif isinstance(st, (ast.For, ast.While, ast.Try, ast.With, ast.FunctionDef, ast.Match)):
                 raise Unrecognised(f"{type(st).__name__} in _update_state")
             else:
@@ -358,8 +370,33 @@ def _float_range_failures_escape(module) -> bool:
     return False
 
 
+PROBE_VALUES = (0, 1, 7)
+
+
+def _constructor_probe(module):
+    """EVALUATED on the real class: what the public getters report right after `ATP_Store(budget, gtp_budget, nadh_reserve,
+    max_debt=...)` for every combination of PROBE_VALUES: ((budget, gtp, nadh, max_debt), (atp, gtp, nadh, max_atp, max_gtp,
+    max_nadh, debt, max_debt, state, total_consumed, total_regenerated, operations_count, failed_operations, transactions))"""
+    import itertools
+    E = module.EnergyType
+    rows = []
+    for b, g, n, md in itertools.product(PROBE_VALUES, repeat=4):
+        s = module.ATP_Store(budget=b, gtp_budget=g, nadh_reserve=n, max_debt=md, silent=True)
+        st = s.get_statistics()
+        vals = [s.get_balance(E.ATP), s.get_balance(E.GTP), s.get_balance(E.NADH), st["max_atp"], st["max_gtp"], st["max_nadh"],
+                s.get_debt(), s.max_debt, st["total_consumed"], st["total_regenerated"], st["operations_count"],
+                st["failed_operations"], len(s.get_transactions(10 ** 6))]
+        if not all(type(v) is int and v >= 0 for v in vals):
+            raise Unrecognised(f"constructor probe: non-natural value in {vals}")
+        state = s.get_state().value
+        if state not in ("normal", "conserving", "starving", "feasting", "dormant"):
+            raise Unrecognised(f"constructor probe: state {state!r}")
+        rows.append(((b, g, n, md), tuple(vals[:8]) + (state,) + tuple(vals[8:])))
+    return rows
+
+
 def extract_facts(repo: Path) -> dict:
-    names = ["debtWeight", "chain", "updGuards", "consoleFailuresEscape", "floatRangeFailuresEscape"]
+    names = ["debtWeight", "chain", "updGuards", "consoleFailuresEscape", "floatRangeFailuresEscape", "constructorProbe"]
     try:
         module = load_module(repo)
         cls = module.ATP_Store
@@ -381,6 +418,7 @@ def extract_facts(repo: Path) -> dict:
     guard("updGuards", lambda: _upd_guards(fn, module))
     guard("consoleFailuresEscape", lambda: _console_failures_escape(module))
     guard("floatRangeFailuresEscape", lambda: _float_range_failures_escape(module))
+    guard("constructorProbe", lambda: _constructor_probe(module))
     return facts
 
 
@@ -417,6 +455,21 @@ def render(facts: dict) -> str:
                  "10^310: Python ints are unbounded) make any ledger operation raise? -/")
     lines.append("def floatRangeFailuresEscape : Bool := "
                  + (f"true  -- UNRECOGNISED: {str(c)[:100]}" if isinstance(c, Unrecognised) else str(bool(c)).lower()))
+    cp = facts.get("constructorProbe", Unrecognised("not evaluated"))
+    lines.append("/-- evaluated on the real class: ((budget, gtp_budget, nadh_reserve, max_debt), what the public getters report right "
+                 "after construction: (atp, gtp, nadh, max_atp, max_gtp, max_nadh, debt, max_debt), state, (total_consumed, "
+                 "total_regenerated, operations_count, failed_operations, number of transactions)) for every combination of "
+                 f"{PROBE_VALUES} -/")
+    if isinstance(cp, Unrecognised):
+        lines.append("def constructorProbe : Option (List ((Nat × Nat × Nat × Nat) × (Nat × Nat × Nat × Nat × Nat × Nat × Nat × Nat) × "
+                     f"String × (Nat × Nat × Nat × Nat × Nat))) := none  -- UNRECOGNISED: {str(cp)[:100]}")
+    else:
+        def row(r):
+            (cfg, v) = r
+            return (f"(({cfg[0]}, {cfg[1]}, {cfg[2]}, {cfg[3]}), ({', '.join(str(x) for x in v[:8])}), \"{v[8]}\", "
+                    f"({', '.join(str(x) for x in v[9:])}))")
+        lines.append("def constructorProbe : Option (List ((Nat × Nat × Nat × Nat) × (Nat × Nat × Nat × Nat × Nat × Nat × Nat × Nat) × "
+                     "String × (Nat × Nat × Nat × Nat × Nat))) := some [\n  " + ",\n  ".join(row(r) for r in cp) + "]")
     lines += ["", "end Operon.Gen.Metabolism", ""]
     return "\n".join(lines)
 
@@ -426,4 +479,4 @@ def run(repo: Path, lean: Path, write_if_changed) -> dict:
     changed = write_if_changed(Path(lean) / OUT_REL, render(facts))
     bad = [k for k, v in facts.items() if isinstance(v, Unrecognised)]
     return {"id": "E5-metabolism", "facts_changed": bool(changed), "unrecognised": bad,
-            "facts": {k: str(v) for k, v in facts.items()}}
+            "facts": {k: (str(v) if k != "constructorProbe" or isinstance(v, Unrecognised) else f"{len(v)} rows") for k, v in facts.items()}}
